@@ -582,7 +582,7 @@ func (Decimal64) Format() Format {
 }
 
 func (x Decimal64) String() string {
-	return fmt.Sprintf("%f", float64(x))
+	return strconv.FormatFloat(float64(x), 'f', -1, 64)
 }
 
 func (x Decimal64) Value() interface{} {
